@@ -1,6 +1,7 @@
 import MlModel.Lemmas.Pipe
 import MlModel.Lemmas.PipeBatch
 import MlModel.Lemmas.PipeBuild
+import MlModel.Lemmas.PipeHeap
 import MlModel.Properties.C19
 /-!
 # C08 — pipeline operators route data exactly as a reference interpreter
@@ -313,6 +314,39 @@ theorem C08_assign_frame (op : Op) (hk : op.kind = .assign) (names : List String
       | cons n' rest =>
         simp only [hkeys, List.map_cons] at hw
         exact hflat _ _ (by simpa [hkeys] using hw)
+
+/-! ## the caller's objects are not written (heap-aware part, through the C18 model)
+
+`Model/PipeHeap.lean` runs `_get_outputs` — the output routing of `Assign` (onto the incoming record)
+and of `apply` (onto a `NullMap`) — on the cell heap of `Model/Tree.lean`: one `copy_and_set` per output
+key (plain key, nested `Key` path, `SELF`, `SKIP`), for a dict-form key the reads of its sources, a new
+tuple and one multi-key `copy_and_set` onto its record keys.  `Tree.Extends h h'`: `h'` is `h` plus
+newly allocated cells, every cell of `h` literally unchanged. -/
+
+/-- **C08_assign_no_write.**  For every heap (any sharing between records, cycles allowed), every
+record `base`, every list of output keys of every form — one or several, flat or NESTED paths into
+containers that already exist in the record, dict-form keys, `SELF`, `SKIP` — and every outputs of the
+function: routing the outputs into the record writes **no pre-existing object**.  Every cell of the heap
+before — the caller's record, its nested containers at every depth, the other records of the stream,
+whatever an upstream sink still holds — is unchanged, whether the routing succeeds or raises; hence
+(for a heap without dangling references) every read through any pre-existing object returns the very
+same object as before. -/
+theorem C08_assign_no_write (h : Tree.Heap) (base : Nat) (keys : List PipeHeap.HKey) (outs : List Nat) (t : Nat) :
+    (∀ r, r < h.size → (PipeHeap.getOutputsH false h base keys outs t).1[r]? = h[r]?) ∧
+    (Tree.Closed h → ∀ root, root < h.size → ∀ q,
+      Tree.get (PipeHeap.getOutputsH false h base keys outs t).1 root q = Tree.get h root q) :=
+  ⟨(PipeHeap.getOutputsH_extends h base keys outs t).2,
+   fun hc _ hroot q => Tree.get_extends hc (PipeHeap.getOutputsH_extends h base keys outs t) q hroot⟩
+
+/-- **C08_assign_stream_no_write.**  The same along a whole stream: after `Assign` has routed the
+outputs of any number of records (each onto its own record; the same record object may occur several
+times), no object that existed before the run has been written. -/
+theorem C08_assign_stream_no_write (keys : List PipeHeap.HKey) (jobs : List PipeHeap.Job) (h : Tree.Heap) :
+    (∀ r, r < h.size → (PipeHeap.assignAllH false keys h jobs).1[r]? = h[r]?) ∧
+    (Tree.Closed h → ∀ root, root < h.size → ∀ q,
+      Tree.get (PipeHeap.assignAllH false keys h jobs).1 root q = Tree.get h root q) :=
+  ⟨(PipeHeap.assignAllH_extends keys jobs h).2,
+   fun hc _ hroot q => Tree.get_extends hc (PipeHeap.assignAllH_extends keys jobs h) q hroot⟩
 
 /-! ## `filter` -/
 
@@ -723,6 +757,43 @@ example : (Impl.run false [exBatched] exColSrc).out.map colInts = [[1, 2, 3], [4
 
 example : Rebatch.WF 1 ([[Val.list [.int 0, .int 1, .int 2]], [Val.list [.int 3]]].map Ref.asBatch) := by
   decide
+
+/-! ### the heap-aware theorem is not true by construction -/
+
+/-- the record `{'x': 1, 'meta': {'id': 5}}` (cell 3; `meta` is cell 2) and the outputs `(10, 'even')`
+(cell 6) of a function -/
+def exHeap : Tree.Heap :=
+  #[.leaf (.int 1), .leaf (.int 5), .dict [(.str "id", 1)], .dict [(.str "x", 0), (.str "meta", 2)],
+    .leaf (.int 10), .leaf (.str "even"), .tuple [4, 5]]
+
+/-- `assign(('score', Key().meta.bucket), ..)` -/
+def exKeys : List PipeHeap.HKey := [.key [.str "score"], .key [.str "meta", .str "bucket"]]
+
+/-- the code (`copy_and_set` per key): the caller's `meta` dict (cell 2) and record (cell 3) are
+unchanged and the new record has a NEW `meta`; the variant "shallow-copy the record once, then set the
+keys in place" leaves the record cell alone but WRITES the caller's nested `meta` dict. -/
+example :
+    (PipeHeap.getOutputsH false exHeap 3 exKeys [4, 5] 6).1[2]? = exHeap[2]? ∧
+    (PipeHeap.getOutputsH false exHeap 3 exKeys [4, 5] 6).1[3]? = exHeap[3]? ∧
+    (match (PipeHeap.getOutputsH false exHeap 3 exKeys [4, 5] 6) with
+     | (h', .ok r) =>
+       (match Tree.get h' r [.str "meta"] with | .ok m => m != 2 | _ => false) &&
+       (match Tree.get h' r [.str "meta", .str "bucket"] with | .ok b => b == 5 | _ => false)
+     | _ => false) = true ∧
+    (let (h1, c) := Tree.shallowCopy exHeap 3
+     (PipeHeap.getOutputsH true h1 c exKeys [4, 5] 6).1[3]? = exHeap[3]? ∧
+     (PipeHeap.getOutputsH true h1 c exKeys [4, 5] 6).1[2]?
+       = some (.dict [(.str "id", 1), (.str "bucket", 5)])) := by
+  decide +kernel
+
+example : Tree.Closed exHeap := by
+  intro r n hn c hc
+  have hr : r < 7 := by
+    rcases Nat.lt_or_ge r 7 with h | h
+    · exact h
+    · rw [Array.getElem?_eq_none (by simpa [exHeap] using h)] at hn; cases hn
+  have : ∀ r < 7, ∀ n, exHeap[r]? = some n → ∀ c ∈ n.refs, c < 7 := by decide
+  exact this r hr n hn c hc
 
 example : Rejected (Build.step {} (.apply none 0 (.single .self) (.single (.key .self)) 2 0)) :=
   (C08_build_rejects {}).1 none 0 _ _ 2 (by decide)
